@@ -28,7 +28,8 @@ def apen(sequence, m=1, r=0):
     elif type(sequence) is list:
         U = np.array(sequence)
     elif type(sequence) is np.ndarray:
-        U = sequence
+        # distances are differences of states: a narrow or unsigned integer dtype would wrap around
+        U = sequence.astype(np.int64) if np.issubdtype(sequence.dtype, np.integer) else sequence
     else:
         raise TypeError("unsupported sequence type: %s" % type(sequence))
 
